@@ -55,6 +55,17 @@ Proof.
   f_equal.
 Qed.
 
+(* what the scanner makes of the text: the formatter's tokens with the scanner's lines and
+   positions, Space tokens dropped, the newline renamed, then EOF *)
+Theorem round_trip_lexes v ts :
+  tokens_of ftext printable maximum v = Some ts -> has_elision ts = false ->
+  floats_roundtrip fparse ftext v = true ->
+  lex (render ts) = place (convs ts) 1 1.
+Proof.
+  intros Ets He Fl. rewrite <- render_convs. apply lex_render.
+  apply (tokens_of_scannable fparse ftext printable maximum v ts Ets He Fl).
+Qed.
+
 (* ---------- the parsed value is the original one on the canonical dynamic types ---------- *)
 Lemma fold_conj_Forall (P : val -> Prop) l : fold_right (fun x Q => P x /\ Q) True l -> Forall P l.
 Proof. induction l as [|x t IH]; cbn [fold_right]; intros H; constructor; tauto. Qed.
